@@ -197,19 +197,21 @@ def run(chk):
         if hd and sp != 'hrc':
             continue
         boolsp = rnd.choice([None, 'true|false', 'Y|N', '1|0'])
-        cols = [('n', 'integer'), ('x', 'number'), ('s', 'string'),
-                ('b', {'base': 'boolean', 'format': boolsp} if boolsp else 'boolean'),
-                ('d', {'base': 'date', 'format': 'yyyy-MM-dd'}), ('t', {'base': 'datetime', 'format': 'dd/MM/yyyy HH:mm:ss'})]
+        # column names: short ones, or names of which a later one is part of an earlier one (order_id ... id)
+        nm = rnd.choice([['n', 'x', 's', 'b', 'd', 't', 'b2'], ['order_id', 'amount', 'id', 'ok', 'created_at', 'created', 'at']])
+        cols = [(nm[0], 'integer'), (nm[1], 'number'), (nm[2], 'string'),
+                (nm[3], {'base': 'boolean', 'format': boolsp} if boolsp else 'boolean'),
+                (nm[4], {'base': 'date', 'format': 'yyyy-MM-dd'}), (nm[5], {'base': 'datetime', 'format': 'dd/MM/yyyy HH:mm:ss'})]
         # a second boolean column with its own declared spelling
         boolsp2 = rnd.choice([None, 'true|false', 'Y|N', '1|0', 'yes|no'])
-        cols.append(('b2', {'base': 'boolean', 'format': boolsp2} if boolsp2 else 'boolean'))
+        cols.append((nm[6], {'base': 'boolean', 'format': boolsp2} if boolsp2 else 'boolean'))
         tv, fv = (boolsp.split('|') if boolsp else ('true', 'false'))
         tv2, fv2 = (boolsp2.split('|') if boolsp2 else ('true', 'false'))
         strs = ['plain #12 (flat)', 'café', 'x y \x80\x9c\xa4', '12']        # incl. C1 controls, where latin-1 and windows-1252 disagree
         data = [[1, 1.5, strs[0], True, datetime.datetime(2020, 2, 29), datetime.datetime(2020, 2, 29, 23, 59, 58), False],
                 [None, None, None, None, None, None, None],
                 [-7, -0.25, strs[1], False, datetime.datetime(1999, 12, 31), datetime.datetime(2001, 1, 1, 0, 0, 0), True],
-                [30, 2.0, strs[2], True, datetime.datetime(2031, 7, 4), datetime.datetime(2031, 7, 4, 5, 6, 7), True]]
+                [rnd.choice([30, 2**53 + 1, -(2**53 + 3), 2**62 + 1]), 2.0, strs[2], True, datetime.datetime(2031, 7, 4), datetime.datetime(2031, 7, 4, 5, 6, 7), True]]       # (integers no double holds, next to a null)
         cells = []
         for row in data:
             cells.append([None if row[0] is None else str(row[0]), None if row[1] is None else repr(row[1]),
@@ -227,8 +229,8 @@ def run(chk):
             ev['rows_ok'] = len(df) == len(data)
             if ev['names_ok'] and ev['rows_ok']:
                 dt = {c: str(df[c].dtype) for c in df.columns}
-                ev['dtypes_ok'] = (dt['n'] == 'Int64' and dt['x'].startswith('float') and dt['s'] in ('string', 'str', 'object')
-                                   and dt['b'] == 'boolean' and dt['b2'] == 'boolean' and dt['d'].startswith('datetime64') and dt['t'].startswith('datetime64'))
+                ev['dtypes_ok'] = (dt[nm[0]] == 'Int64' and dt[nm[1]].startswith('float') and dt[nm[2]] in ('string', 'str', 'object')
+                                   and dt[nm[3]] == 'boolean' and dt[nm[6]] == 'boolean' and dt[nm[4]].startswith('datetime64') and dt[nm[5]].startswith('datetime64'))
                 ok = True
                 nulls = True
                 for i, row in enumerate(data):
